@@ -143,7 +143,7 @@ def run(rep, repo, tier):
         rep.fail('C16.R1', parse_where, 'the ordering helper is called from parse()', got='no call', construct='helper not called')
     hpos = order[id(helper_calls[0][0])] if helper_calls else 10 ** 9
     # semantic table: with only this criterion present at position v, is a parser.error reached before the scatter?
-    from ..termeval import PyEval, NOATOM, Raises
+    from ..termeval import PyEval, NOATOM, Raises, reached
     bool_dests = {d for d, a in pf.by_dest.items() if a.action == 'store_true'}
     early = [(e, ctx, order[id(e)]) for e, ctx in pf.errors if order[id(e)] < hpos]
     for dest, m in rows:
@@ -165,7 +165,7 @@ def run(rep, repo, tier):
                 for e, ctx, pos_ in early:
                     pe = PyEval(atom)
                     try:
-                        ok = all(pe.truth(pe.ev(g)) for g in pf.guards_of(ctx))
+                        ok = reached(pe, ctx)
                     except Raises as r:
                         problem = ('raises', str(r), e)
                         ok = False
@@ -191,33 +191,47 @@ def run(rep, repo, tier):
         else:
             rep.ok('C16.R2', parse_where, 'positions 0 and %d of %s are refused before the scatter, 1 and %d are not (with and without extras)' % (N + 1, m, N), got='table of %d valuations' % len(verdicts))
 
-    # ---- R3 duplicate guard ------------------------------------------------------------------------------
-    if helper_calls:
-        hc = helper_calls[0][0]
-        ret = hc.ret
-        dup = None
-        for e, ctx in pf.errors:
-            if order[id(e)] < hpos:
-                continue
-            gs = pf.guards_of(ctx)
-            for g in gs:
-                c = g
-                if c[0] == 'not' and c[1][0] == 'cmp' and c[1][1] == 'Eq':
-                    c = CMP('NotEq', c[1][2], c[1][3])
-                if c[0] == 'cmp' and c[1] == 'NotEq':
-                    dup = (e, gs, c)
-        if dup is None:
-            rep.fail('C16.R3', parse_where, 'two criteria sharing a position are refused', got='no parser.error guarded by kept-count != present-count after the ordering helper',
-                     construct='duplicate guard absent')
+    # ---- R3 duplicate guard: semantic table over pairs of criteria --------------------------------------
+    def refused(vals):
+        """first parser.error of parse() reached under this argument valuation (None = accepted)"""
+        def atom(t):
+            if t[0] == 'attr' and t[1] == S('args'):
+                if t[2] in vals:
+                    return vals[t[2]]
+                if t[2] in bool_dests:
+                    return False
+                return None
+            return NOATOM
+        for e, ctx in sorted(pf.errors, key=lambda ec: order[id(ec[0])]):
+            pe = PyEval(atom)
+            if reached(pe, ctx):
+                return e
+        return None
+    def val_of(dest, v):
+        return [v] if (pf.by_dest.get(dest) and pf.by_dest[dest].nargs is not None) else v
+    pairs_ = [(rows[a][0], rows[b][0]) for a, b in ((0, 1), (1, 2), (2, 4), (6, 8), (0, 8)) if a < len(rows) and b < len(rows)]
+    r3_bad, r3_n = [], 0
+    try:
+        for d1, d2 in pairs_:
+            for p1, p2, want_refused in ((1, 1, True), (N, N, True), (3, 3, True), (1, 2, False), (2, 1, False), (1, N, False), (N, 1, False), (4, 7, False)):
+                r3_n += 1
+                e = refused({d1: val_of(d1, p1), d2: val_of(d2, p2)})
+                if (e is not None) != want_refused:
+                    r3_bad.append((d1, p1, d2, p2, e))
+        if r3_bad:
+            d1, p1, d2, p2, e = r3_bad[0]
+            if e is None:
+                rep.fail('C16.R3', parse_where, 'two criteria sharing a position are refused', got='-%s %d -%s %d is accepted' % (d1, p1, d2, p2), want='parser.error',
+                         construct='duplicate guard absent')
+            else:
+                rep.fail('C16.R3', e.where, 'criteria at distinct positions (gaps allowed) are accepted', got='-%s %d -%s %d is refused' % (d1, p1, d2, p2), want='accepted',
+                         construct='distinct positions refused', loc=e.loc)
         else:
-            e, gs, c = dup
-            rep.check(len(gs) == 1, 'C16.R3', e.where, 'the duplicate check is reached on every path', got=[show(g)[:80] for g in gs],
-                      want='single guard', construct='duplicate guard conditional', loc=e.loc)
-            kept, cnt = (ret[1][0], ret[1][1]) if (ret[0] == 'tuple' and len(ret[1]) == 2) else (None, None)
-            sides = {c[2], c[3]}
-            ok = kept is not None and sides == {CALL(S('len'), [kept]), cnt}
-            rep.check(ok, 'C16.R3', e.where, 'the duplicate check compares len(kept list) with the count returned by the helper',
-                      got=show(c)[:200], want='len(ordered) != count', construct='duplicate comparison', loc=e.loc)
+            rep.ok('C16.R3', parse_where, 'shared positions are refused, distinct positions (any order, with gaps) accepted', got='table of %d two-criterion valuations' % r3_n)
+    except Raises as r:
+        rep.fail('C16.R3', parse_where, 'option checking never fails with an exception other than the parser error', got=str(r), construct='parse raises')
+    except Unknown as u:
+        rep.inconclusive('C16.R3', parse_where, 'the guards of the parser.error calls can be evaluated on two-criterion valuations', got=str(u))
     check_helper(rep, repo, helper, N)
 
     # ---- R4 ----------------------------------------------------------------------------------------------
